@@ -158,12 +158,14 @@ def r07a(chk, rid='R07.a'):
 
 
 def r07b(chk, rid='R07.b'):
-    chk.rule(rid, 'detectencoding_unicode and _fixencoding decided over the relation of their input to the constant prefix `@charset "` (empty, proper prefix, equal, longer without / with closing quote, diverging at each position) x final: never a wrong answer, None only while undecided and not final; _fixencoding rewrites exactly the name and maps utf-8-sig to utf-8')
+    chk.rule(rid, 'detectencoding_unicode and _fixencoding decided over the relation of their input to the constant prefix `@charset "` (empty, proper prefix, equal, longer without / with closing quote, diverging at each position, other letter cases and spacings of the keyword) x final: never a wrong answer, None only while undecided and not final; _fixencoding rewrites exactly the name and maps utf-8-sig to utf-8')
     m = chk.repo.mod(CODEC)
     P = '@charset "'
     inputs = [P[:i] for i in range(len(P) + 1)]
     inputs += [P[:i] + 'x' for i in range(len(P))]  # diverging at every position
     inputs += [P + 'utf', P + 'utf-8"', P + 'utf-8";a{}', P + '"', 'a{}', P + 'x"y"']
+    # the rule must be written literally (CSS 2.1 4.4): other letter cases and spacings are not the prefix
+    inputs += ['@CHARSET "', '@CHARSET "utf-8";', '@Charset "latin-1";a{}', '@CHARSET', '@C', '@charset  "x";', "@charset 'x';", '@charset\t"x";', ' @charset "x";']
     fu = m.get('detectencoding_unicode')
     ev = Evaluator(fu, module=m)
     n = 0
